@@ -3,8 +3,11 @@
 //! Request lines (see lean/C2paModel/Model/C04.lean):
 //!   C04 ops base=<results> ops=<op;op;…|->      -> <state> <results>
 //!   C04 legacy trust=<0|1> status=<-|[]|c,c,…>  -> <state>
+//!   C04 fromstore active=<S> ing=<st;…|-> log=<item;…|->  -> <state> A=… D=<hexuri>~s;i;f/…
+//!   C04 label uri=<S>                            -> <S>   (manifest_label_from_uri)
 //! <results> = A=<-|s,s;i,i;f,f> D=<-|[]|uri~s;i;f/uri~s;i;f>
 //! op = <kind s|i|f>:<uri|->:<code>
+//! S = n | h<hex>;  st = <code>:<S url>:<kind>;  item = <code|->:<S err>:<kind>:<S label>:<S ingredient uri>
 
 use c2pa::{
     status_tracker::LogKind,
@@ -288,7 +291,7 @@ fn rank(s: ValidationState) -> u8 {
 }
 
 pub fn run(run: &mut Run, rng: &mut Rng) {
-    run.rule = "results generated mostly-valid (decisive success codes present w.p. 3/4, failures drawn from known codes ∪ near-misses ∪ tolerated ∪ random) with 0–3 deltas, then 0–4 add_status ops; a case is non-trivial when the base state or final state is not Invalid, or when a failure op hits a non-Invalid base; distinct by request text".to_string();
+    run.rule = "results generated mostly-valid (decisive success codes present w.p. 3/4, failures drawn from known codes ∪ near-misses ∪ tolerated ∪ random) with 0–3 deltas, then 0–4 add_status ops; a case is non-trivial when the base state or final state is not Invalid, or when a failure op hits a non-Invalid base; from_store cases: real stores with 0–2 v3 ingredients carrying 0–3 recorded statuses, logs with the active manifest's decisive success items (mostly) plus 0–4 items (re-logged recorded statuses, ingredient-attributed decisive successes, err_val-only, codeless, failures, random), non-trivial when the state is not Invalid or a surviving non-tolerated failure item is present; distinct by request text".to_string();
     let g = Gen {
         known: known_codes(),
         near: near_misses(),
@@ -344,6 +347,8 @@ pub fn run(run: &mut Run, rng: &mut Rng) {
     run.count("exhaustive_single_placement");
 
     reader_cases(run, &g, rng);
+    legacy_fixed(run);
+    from_store_cases(run, &g, rng);
 
     for _ in 0..n {
         let mut r = rng.fork();
@@ -380,6 +385,7 @@ fn one_ops(run: &mut Run, base: ValidationResults, ops: Vec<(char, String, Strin
     let mut r = base.clone();
     let mut prev = base_state;
     let mut mono_fail: Option<String> = None;
+    let mut inert_fail: Option<String> = None;
     for (kind, uri, code) in &ops {
         let mut s = st(code).set_kind(kind_of(*kind));
         if uri != "-" {
@@ -393,6 +399,13 @@ fn one_ops(run: &mut Run, base: ValidationResults, ops: Vec<(char, String, Strin
         }
         if *kind == 'f' && rank(now) > rank(prev) {
             mono_fail = Some(format!("adding failure {code} raised state {} -> {}", state_str(prev), state_str(now)));
+        }
+        // inert placements: informational anywhere, success in an ingredient delta, and active
+        // success codes other than the three decisive ones never change the state
+        let decisive = ["claimSignature.validated", "claimSignature.insideValidity", "signingCredential.trusted"].contains(&code.as_str());
+        let inert = *kind == 'i' || (*kind == 's' && (uri != "-" || !decisive));
+        if inert && now != prev {
+            inert_fail = Some(format!("inert status {kind}:{uri}:{code} changed state {} -> {}", state_str(prev), state_str(now)));
         }
         prev = now;
     }
@@ -419,6 +432,9 @@ fn one_ops(run: &mut Run, base: ValidationResults, ops: Vec<(char, String, Strin
     }
     if let Some(d) = mono_fail {
         run.fail(idx, "failure-not-monotone", d);
+    }
+    if let Some(d) = inert_fail {
+        run.fail(idx, "inert-status-changed-state", d);
     }
 }
 
@@ -497,6 +513,10 @@ fn legacy(run: &mut Run, g: &Gen, r: &mut Rng) {
         2 => Some(vec![TOLERATED.to_string(); r.range(1, 2) as usize]),
         _ => Some((0..r.range(1, 3)).map(|_| if r.chance(1, 2) { TOLERATED.to_string() } else { g.code(r) }).collect()),
     };
+    legacy_one(run, trust, status);
+}
+
+fn legacy_one(run: &mut Run, trust: bool, status: Option<Vec<String>>) {
     let ctx = Context::new()
         .with_settings(serde_json::json!({"verify": {"verify_trust": trust}}).to_string().as_str())
         .expect("settings");
@@ -521,5 +541,360 @@ fn legacy(run: &mut Run, g: &Gen, r: &mut Rng) {
     }
     if state == ValidationState::Trusted && !trust {
         run.fail(idx, "legacy-state", "Trusted reported although trust was not verified".to_string());
+    }
+    // "Trusted only if … there are no failures at all": the legacy list holds the failures
+    let no_failures = status.as_ref().map(|v| v.is_empty()).unwrap_or(true);
+    if state == ValidationState::Trusted && !no_failures {
+        run.fail(idx, "legacy-trusted-with-failure", format!("legacy fallback gave Trusted although the list holds failures {:?}", status));
+    }
+    if state != ValidationState::Trusted && trust && no_failures {
+        run.fail(idx, "legacy-state", format!("legacy fallback gave {} for trust verified and no failure", state_str(state)));
+    }
+}
+
+/// the decisive legacy inputs, always present (the random stream reaches them only by chance)
+fn legacy_fixed(run: &mut Run) {
+    for trust in [false, true] {
+        for status in [None, Some(vec![]), Some(vec![TOLERATED.to_string()]), Some(vec![TOLERATED.to_string(); 2]),
+                       Some(vec!["assertion.dataHash.mismatch".to_string()]), Some(vec![TOLERATED.to_string(), "general.error".to_string()])] {
+            legacy_one(run, trust, status);
+        }
+    }
+}
+
+// ---------------------------------------------------------------------------------------------
+// from_store: real `Store` (unsigned claims, built through the c19/c20 hooks) + synthetic
+// validation log -> `ValidationResults::from_store`; the model receives the abstraction
+// (provenance label, flattened ingredient statuses) and the same log.
+
+use c2pa::verif_hooks::{c19 as hk19, c20 as hk20, c34 as hk34};
+
+fn hx(s: &str) -> String {
+    let mut o = String::from("h");
+    for b in s.bytes() {
+        o.push_str(&format!("{b:02x}"));
+    }
+    o
+}
+
+fn hx_opt(s: Option<&str>) -> String {
+    s.map(hx).unwrap_or_else(|| "n".to_string())
+}
+
+fn urn(tag: u32) -> String {
+    format!("urn:c2pa:{:08x}-0000-4000-8000-000000000000", tag)
+}
+
+fn kind_char(k: &LogKind) -> char {
+    match k {
+        LogKind::Success => 's',
+        LogKind::Informational => 'i',
+        LogKind::Failure => 'f',
+    }
+}
+
+struct Item {
+    status: Option<String>,
+    err: Option<String>,
+    kind: char,
+    label: String,
+    ing_uri: Option<String>,
+}
+
+pub fn results_str_hex(r: &ValidationResults) -> String {
+    let a = match r.active_manifest() {
+        None => "-".to_string(),
+        Some(sc) => sc_str(sc),
+    };
+    let d = match r.ingredient_deltas() {
+        None => "-".to_string(),
+        Some(v) if v.is_empty() => "[]".to_string(),
+        Some(v) => v
+            .iter()
+            .map(|idv| format!("{}~{}", &hx(idv.ingredient_assertion_uri())[1..], sc_str(idv.validation_deltas())))
+            .collect::<Vec<_>>()
+            .join("/"),
+    };
+    format!("A={a} D={d}")
+}
+
+/// One from_store case. `ings` = per ingredient (manifest label, recorded statuses (code, url)).
+fn from_store_one(run: &mut Run, active: Option<u32>, ings: &[(String, Vec<(String, Option<String>)>)], items: &[Item]) {
+    let mut store = hk19::Store::new();
+    let mut abs_ing: Vec<(String, Option<String>, char)> = vec![];
+    let active_label = active.map(urn);
+    if let Some(label) = &active_label {
+        let Ok(mut claim) = hk19::Claim::new_with_user_guid("verif", label, 2) else { return };
+        for (ilabel, sts) in ings {
+            // recorded statuses go to the ingredient's validation results by their kind
+            let mut vr = ValidationResults::default();
+            for (code, url) in sts {
+                let k = c2pa::validation_results::validation_codes::log_kind(code);
+                let mut v = st(code).set_kind(k);
+                if let Some(u) = url {
+                    v = v.set_url(u.clone());
+                }
+                vr.add_status(v);
+            }
+            // the abstraction follows validation_status(): active success, informational, failure
+            for k in ['s', 'i', 'f'] {
+                for (code, url) in sts {
+                    let kk = kind_char(&c2pa::validation_results::validation_codes::log_kind(code));
+                    if kk == k {
+                        // get_statuses: relative urls ("self#jumbf…") are made absolute with the ingredient's manifest label
+                        let abs = url.as_ref().map(|u| if u.starts_with("self#jumbf") { hk34::to_absolute_uri(ilabel, u) } else { u.clone() });
+                        abs_ing.push((code.clone(), abs, kk));
+                    }
+                }
+            }
+            let am = c2pa::HashedUri::new(hk19::to_manifest_uri(ilabel), Some("sha256".to_string()), &[7u8; 32]);
+            if hk20::claim_add_ingredient_v3(&mut claim, c2pa::Relationship::ComponentOf, Some(am), None, Some(vr)).is_err() {
+                return;
+            }
+        }
+        hk19::store_insert_restored_claim(&mut store, label.clone(), claim);
+    }
+    let mut log = c2pa::status_tracker::StatusTracker::default();
+    for it in items {
+        let li = c2pa::status_tracker::LogItem {
+            kind: kind_of(it.kind),
+            label: std::borrow::Cow::Owned(it.label.clone()),
+            description: std::borrow::Cow::Borrowed("verif"),
+            err_val: it.err.clone().map(std::borrow::Cow::Owned),
+            validation_status: it.status.clone().map(std::borrow::Cow::Owned),
+            ingredient_uri: it.ing_uri.clone().map(std::borrow::Cow::Owned),
+            ..Default::default()
+        };
+        log.add_non_error(li);
+    }
+    let res = vh::common::guarded(std::panic::AssertUnwindSafe(|| c2pa::verif_hooks::c04::results_from_store(&store, &log)));
+    let ing_s = if abs_ing.is_empty() {
+        "-".to_string()
+    } else {
+        abs_ing.iter().map(|(c, u, k)| format!("{c}:{}:{k}", hx_opt(u.as_deref()))).collect::<Vec<_>>().join(";")
+    };
+    let log_s = if items.is_empty() {
+        "-".to_string()
+    } else {
+        items
+            .iter()
+            .map(|i| format!("{}:{}:{}:{}:{}", i.status.clone().unwrap_or_else(|| "-".to_string()), hx_opt(i.err.as_deref()), i.kind, hx(&i.label), hx_opt(i.ing_uri.as_deref())))
+            .collect::<Vec<_>>()
+            .join(";")
+    };
+    let req = format!("C04 fromstore active={} ing={} log={}", hx_opt(active_label.as_deref()), ing_s, log_s);
+    let r = match res {
+        Ok(r) => r,
+        Err(_) => {
+            let idx = run.case(req, "panic".to_string());
+            run.fail(idx, "panic", "from_store panicked".to_string());
+            return;
+        }
+    };
+    let state = r.validation_state();
+    run.count(&format!("fromstore_{}", state_str(state)));
+    let imp = format!("{} {}", state_str(state), results_str_hex(&r));
+    // ---- oracle on the implementation, from the log alone ----
+    let tolerated = |c: &str| c == TOLERATED || c.starts_with("cawg.x509.");
+    let is_active = |u: &str| active_label.is_some() && hk34::manifest_label_from_uri(u) == active_label;
+    let recorded = |code: &str, url: &str, kind: char| abs_ing.iter().any(|(c, u, k)| c == code && u.as_deref() == Some(url) && *k == kind);
+    let mut fails: Vec<(&'static str, String)> = vec![];
+    let mut some_surviving_failure = false;
+    for it in items {
+        // the status this item must yield: (code, kind, ingredient uri)
+        let (code, kind, iu): (String, char, Option<&str>) = match (&it.status, &it.err) {
+            (Some(c), _) => (c.clone(), it.kind, it.ing_uri.as_deref()),
+            (None, Some(_)) => (String::new(), 'f', None),
+            (None, None) => continue,
+        };
+        if kind != 'f' || active_label.is_none() {
+            continue;
+        }
+        let by_err = it.status.is_none();
+        // retain predicate (after fixes/C20-from-store-active-claim-status-filter.patch): no ingredient uri, or about the
+        // active manifest, or not recorded in an ingredient assertion
+        let survives = iu.is_none() || is_active(&it.label) || !recorded(&code, &it.label, 'f');
+        if by_err {
+            // an err_val-only item (it never has an ingredient uri after from_log_item) must always be an
+            // active failure with a non-tolerated code
+            {
+                some_surviving_failure = true;
+                let n = r.active_manifest().map(|a| a.failure().iter().filter(|s| !tolerated(s.code()) && s.url() == Some(it.label.as_str())).count()).unwrap_or(0);
+                if n == 0 {
+                    fails.push(("store-failure-item-lost", format!("err_val-only item {:?} at {} left no non-tolerated active failure", it.err, it.label)));
+                }
+            }
+            continue;
+        }
+        if !survives {
+            continue;
+        }
+        some_surviving_failure |= !tolerated(&code);
+        let placed = match iu {
+            None => r.active_manifest().map(|a| a.failure().iter().any(|s| s.code() == code)).unwrap_or(false),
+            Some(u) => r
+                .ingredient_deltas()
+                .map(|d| d.iter().any(|idv| idv.ingredient_assertion_uri() == u && idv.validation_deltas().failure().iter().any(|s| s.code() == code)))
+                .unwrap_or(false),
+        };
+        if !placed {
+            fails.push(("store-failure-item-lost", format!("failure item {code} at {} (ingredient uri {:?}) is not in the failure list its uri designates", it.label, iu)));
+        }
+    }
+    let n_filtered = items
+        .iter()
+        .filter(|i| active_label.is_some() && i.status.is_some() && i.ing_uri.is_some() && !is_active(&i.label) && recorded(i.status.as_deref().unwrap_or(""), &i.label, i.kind))
+        .count();
+    if n_filtered > 0 {
+        run.count("fromstore_with_item_filtered_as_recorded_in_ingredient");
+    }
+    if items.iter().any(|i| i.status.is_none() && i.err.is_some()) {
+        run.count("fromstore_with_err_val_only_item");
+    }
+    if items.iter().any(|i| i.status.is_none() && i.err.is_none()) {
+        run.count("fromstore_with_codeless_item");
+    }
+    if r.ingredient_deltas().map(|d| !d.is_empty()).unwrap_or(false) {
+        run.count("fromstore_with_delta");
+    }
+    if some_surviving_failure && state != ValidationState::Invalid {
+        fails.push(("store-failure-item-lost", format!("a non-tolerated failure item about the active manifest / not recorded in an ingredient is in the log but the state is {}", state_str(state))));
+    }
+    if state != ValidationState::Invalid {
+        for need in ["claimSignature.validated", "claimSignature.insideValidity"] {
+            if !items.iter().any(|i| i.status.as_deref() == Some(need) && i.kind == 's' && i.ing_uri.is_none()) {
+                fails.push(("store-valid-without-own-signature", format!("state {} but the log has no success item {need} of the active manifest", state_str(state))));
+            }
+        }
+    }
+    if state == ValidationState::Trusted
+        && !items.iter().any(|i| i.status.as_deref() == Some("signingCredential.trusted") && i.kind == 's' && i.ing_uri.is_none())
+    {
+        fails.push(("store-valid-without-own-signature", "Trusted but the log has no success item signingCredential.trusted of the active manifest".to_string()));
+    }
+    if active_label.is_none() && (state != ValidationState::Invalid || r.active_manifest().is_some()) {
+        fails.push(("store-no-provenance", "no provenance claim but results are not empty/Invalid".to_string()));
+    }
+    if active_label.is_some() && r.active_manifest().is_none() {
+        fails.push(("store-no-active-manifest", "provenance claim present but activeManifest absent".to_string()));
+    }
+    if let Some(d) = oracle(&r, state) {
+        fails.push(("state-not-as-stated", format!("from_store: {d}")));
+    }
+    if state != ValidationState::Invalid || some_surviving_failure {
+        run.nontrivial(req.clone());
+    }
+    let idx = run.case(req, imp);
+    for (c, d) in fails {
+        run.fail(idx, c, d);
+    }
+}
+
+fn from_store_cases(run: &mut Run, g: &Gen, rng: &mut Rng) {
+    let n = if run.thorough() { 60_000 } else { 4_000 };
+    let sig = |l: &str| hk19::to_signature_uri(l);
+    let asrt = |l: &str, a: &str| hk19::to_assertion_uri(l, a);
+    let fail_codes = ["assertion.dataHash.mismatch", "assertion.hashedURI.mismatch", "claimSignature.mismatch", "general.error",
+                      "signingCredential.untrusted", "cawg.x509.credential.untrusted", "cawg.ica.untrusted_issuer", "ingredient.manifest.missing",
+                      "timeStamp.mismatch", "signingCredential.expired"];
+    for _ in 0..n {
+        let mut r = rng.fork();
+        let active = if r.chance(1, 25) { None } else { Some(1u32) };
+        let al = urn(1);
+        let n_ing = r.below(3) as usize;
+        let ing_labels: Vec<String> = (0..n_ing).map(|k| urn(2 + k as u32)).collect();
+        // url pool: active-manifest urls, ingredient-manifest urls, relative urls, junk
+        let url = |r: &mut Rng| -> String {
+            match r.below(12) {
+                0..=3 => sig(&al),
+                4 => asrt(&al, "c2pa.hash.data"),
+                5 | 6 if n_ing > 0 => sig(&ing_labels[r.below(n_ing as u64) as usize]),
+                7 | 8 if n_ing > 0 => asrt(&ing_labels[r.below(n_ing as u64) as usize], "c2pa.hash.data"),
+                9 => "self#jumbf=c2pa.assertions/c2pa.hash.data".to_string(),
+                10 => r.pick(&["Cose_Sign1", "", "c2pa/x", "self#jumbf=/c2pa", "a=b=c", "/c2pa/", "self#jumbf=/C2PA/x/y"]).to_string(),
+                _ => asrt(&urn(9), "c2pa.actions"),
+            }
+        };
+        let mut ings: Vec<(String, Vec<(String, Option<String>)>)> = vec![];
+        for l in &ing_labels {
+            let k = r.below(4) as usize;
+            let mut sts = vec![];
+            for _ in 0..k {
+                let code = if r.chance(2, 3) { r.pick(&fail_codes).to_string() } else { g.code(&mut r) };
+                let u = match r.below(6) {
+                    0 => None,
+                    1 => Some("self#jumbf=c2pa.assertions/c2pa.hash.data".to_string()),
+                    2 => Some("self#jumbf=c2pa.signature".to_string()),
+                    _ => Some(url(&mut r)),
+                };
+                sts.push((code, u));
+            }
+            ings.push((l.clone(), sts));
+        }
+        let ing_uri = |r: &mut Rng| -> Option<String> {
+            if n_ing > 0 && r.chance(2, 3) { Some(asrt(&al, &format!("c2pa.ingredient.v3__{}", r.below(3)))) } else if r.chance(1, 6) { Some("x".to_string()) } else { None }
+        };
+        let mut items: Vec<Item> = vec![];
+        if r.chance(5, 6) {
+            for c in ["claimSignature.validated", "claimSignature.insideValidity"] {
+                if r.chance(9, 10) {
+                    items.push(Item { status: Some(c.to_string()), err: None, kind: 's', label: sig(&al), ing_uri: None });
+                }
+            }
+            if r.chance(1, 2) {
+                items.push(Item { status: Some("signingCredential.trusted".to_string()), err: None, kind: 's', label: sig(&al), ing_uri: None });
+            }
+        }
+        for _ in 0..r.below(5) {
+            let it = match r.below(10) {
+                // a failure that an ingredient already recorded (same code + url): must be filtered unless about the active manifest
+                0 | 1 if ings.iter().any(|(_, s)| !s.is_empty()) => {
+                    let (il, sts) = r.pick(&ings.iter().filter(|(_, s)| !s.is_empty()).cloned().collect::<Vec<_>>()).clone();
+                    let (c, u) = r.pick(&sts).clone();
+                    let u = u.map(|u| if u.starts_with("self#jumbf") { hk34::to_absolute_uri(&il, &u) } else { u }).unwrap_or_else(|| sig(&il));
+                    let k = if r.chance(4, 5) { kind_char(&c2pa::validation_results::validation_codes::log_kind(&c)) } else { 'f' };
+                    Item { status: Some(c), err: None, kind: k, label: u, ing_uri: ing_uri(&mut r) }
+                }
+                // ingredient successes that would be decisive if they reached the active manifest
+                2 => Item { status: Some(r.pick(&["claimSignature.validated", "claimSignature.insideValidity", "signingCredential.trusted"]).to_string()), err: None, kind: 's',
+                            label: if n_ing > 0 { sig(&ing_labels[0]) } else { sig(&urn(9)) }, ing_uri: Some(asrt(&al, "c2pa.ingredient.v3")) },
+                // err_val-only and codeless items
+                3 => Item { status: None, err: Some(r.pick(&["ClaimMissing", "ClaimMissing { label }", "AssertionMissing { url }", "AssertionDecoding(x)", "HashMismatch(\"d\")", "RemoteManifestFetch(u)", "PrereleaseError", "OtherError", "", "hashMismatch"]).to_string()),
+                            kind: *r.pick(&['f', 'f', 's', 'i']), label: url(&mut r), ing_uri: ing_uri(&mut r) },
+                4 => Item { status: None, err: None, kind: *r.pick(&['f', 'f', 's', 'i']), label: url(&mut r), ing_uri: ing_uri(&mut r) },
+                5 | 6 => Item { status: Some(r.pick(&fail_codes).to_string()), err: if r.chance(1, 3) { Some("HashMismatch(x)".to_string()) } else { None }, kind: 'f', label: url(&mut r), ing_uri: ing_uri(&mut r) },
+                _ => Item { status: Some(g.code(&mut r)), err: None, kind: *r.pick(&['s', 'i', 'f']), label: url(&mut r), ing_uri: ing_uri(&mut r) },
+            };
+            items.push(it);
+        }
+        // shuffle
+        for i in (1..items.len()).rev() {
+            let j = r.below(i as u64 + 1) as usize;
+            items.swap(i, j);
+        }
+        from_store_one(run, active, &ings, &items);
+    }
+    run.count("from_store_cases");
+    // manifest_label_from_uri on the url shapes used above and on junk
+    let shapes = ["", "c2pa", "c2pa/", "c2pa/x", "/c2pa/x", "self#jumbf=/c2pa/x/y", "self#jumbf=c2pa/x", "a=b=c2pa/q", "a=c2pa/q/r=s", "=", "==", "/", "//", "x/c2pa/y",
+                  "self#jumbf=/C2PA/x", "Cose_Sign1", "self#jumbf=c2pa.assertions/c2pa.hash.data", "self#jumbf=/c2pa/urn:c2pa:1/c2pa.assertions/a"];
+    for u in shapes.iter().map(|s| s.to_string()).chain((0..if run.thorough() { 20_000 } else { 2_000 }).map(|_| {
+        let n = rng.below(14) as usize;
+        (0..n).map(|_| *rng.pick(&["/", "=", "c2pa", "c2pa/", "x", "self#jumbf", "urn:c2pa:1", ".", "a"])).collect::<String>()
+    })) {
+        let got = vh::common::guarded(|| hk34::manifest_label_from_uri(&u));
+        let req = format!("C04 label uri={}", hx(&u));
+        match got {
+            Ok(l) => {
+                if l.is_some() {
+                    run.nontrivial(req.clone());
+                }
+                run.case(req, hx_opt(l.as_deref()));
+            }
+            Err(_) => {
+                let idx = run.case(req, "panic".to_string());
+                run.fail(idx, "panic", format!("manifest_label_from_uri panicked on {u:?}"));
+            }
+        }
     }
 }
